@@ -1,16 +1,16 @@
 SPECIFICATION Spec
 CONSTANTS
   Accts = {"a1","a2"}
-  Denoms = {"aISLM"}
+  Denoms = {"aISLM","aLIQUID0"}
   BadDenoms = {"bad"}
   Amts = {"0","1","2"}
   Ratios <- MC_Ratios
   InitBank = "3"
-  MaxLen = 4
-  Defects = {"dao_self_transfer"}
-  Foreign = {}
-  BankAmts = {}
-INVARIANT MInv_Compensated
-PROPERTY MStep_Compensated
+  MaxLen = 5
+  Defects = {}
+  Foreign = {"bank_send","bank_multisend"}
+  BankAmts = {"1","2"}
+INVARIANT MInv_P
+PROPERTY MStep_P
 VIEW View
 CHECK_DEADLOCK FALSE
